@@ -356,10 +356,12 @@ func (r *propResult) report() int {
 				violations++
 				exit = 1
 				// follow the failure up on the real code where the function is within the replay harness's reach
-				for k, o := range byName[n] {
-					if o.Res.Status == "unsat" || k > 3 {
+				tried := 0
+				for _, o := range byName[n] {
+					if o.Res.Status == "unsat" || tried >= 3 {
 						continue
 					}
+					tried++
 					tryReplay(r.World, r.Exec, o)
 					if o.replayed {
 						bad = o
